@@ -225,15 +225,18 @@ fn gen_case_flag_scenario(rng: &mut Prng) -> Value {
     let shared_host: Value = if rng.chance(1, 2) { Value::Null } else { json!(*rng.pick(&["A.com", "a.com", "@l.COM"])) };
     let nm = rng.range(1, 3);
     let mut pool: Vec<Value> = Vec::new();
+    let p0 = rng.below(MPATHS.len());
+    let h0 = rng.below(MHOSTS.len());
     for i in 0..nm {
         let mut r = json!({"id": format!("m{i}"), "rank": i, "markers": "dlsx"});
         if on_path {
-            r["path"] = json!(*rng.pick(MPATHS));
+            // distinct patterns: the tree is a node over several leaves
+            r["path"] = json!(MPATHS[(p0 + i) % MPATHS.len()]);
             if !shared_host.is_null() {
                 r["host"] = shared_host.clone();
             }
         } else {
-            r["host"] = json!(*rng.pick(MHOSTS));
+            r["host"] = json!(MHOSTS[(h0 + i) % MHOSTS.len()]);
             r["path"] = json!(*rng.pick(&["/X", "/x", "/A/@d"]));
         }
         pool.push(r);
@@ -278,7 +281,7 @@ fn gen_case_flag_scenario(rng: &mut Prng) -> Value {
     }
     // empty the tree
     shuffle(rng, &mut order);
-    if rng.chance(1, 5) {
+    if nm >= 2 && rng.chance(1, 2) {
         ops.push(json!({"op":"batch","ids": order.iter().map(|i| format!("m{i}")).collect::<Vec<String>>()}));
     } else {
         for &i in &order {
@@ -291,19 +294,29 @@ fn gen_case_flag_scenario(rng: &mut Prng) -> Value {
     // insert marker rules again (either version), then a few more steps
     shuffle(rng, &mut order);
     let back = rng.range(1, nm);
+    let mut back_in: Vec<usize> = Vec::new();
     for &i in order.iter().take(back) {
-        ops.push(json!({"op":"insert","r": if rng.chance(1, 2) { i } else { first_version + i }}));
+        let r = if rng.chance(1, 2) { i } else { first_version + i };
+        back_in.push(r);
+        ops.push(json!({"op":"insert","r": r}));
     }
     if rng.chance(1, 2) {
         let i = order[0];
+        let r = if rng.chance(1, 2) { i } else { first_version + i };
+        back_in.push(r);
         ops.push(json!({"op":"remove","id": format!("m{i}")}));
-        ops.push(json!({"op":"insert","r": if rng.chance(1, 2) { i } else { first_version + i }}));
+        ops.push(json!({"op":"insert","r": r}));
     }
-    // probes: derived from the marker rules, plus fixed ones in every letter case
-    let mut probes: Vec<Value> = (0..3).map(|_| gen_request(rng, &pool)).collect();
+    // probes: instances (in upper, lower and written case) of the patterns inserted after the tree was empty,
+    // plus fixed ones in every letter case
+    let mut probes: Vec<Value> = Vec::new();
+    for k in 0..4 {
+        let one = vec![pool[back_in[k % back_in.len()]].clone()];
+        probes.push(gen_request(rng, &one));
+    }
     let fixed_paths = ["/a/1", "/A/1", "/a/x", "/ABq", "/abq", "/a/1/c", "/A/1/C", "/b/1-x", "/B/1-x", "/X", "/x"];
     let fixed_hosts = ["shop-7.a.com", "SHOP-7.A.COM", "Shop-7.A.com", "a1.com", "A1.com", "abc.com", "abc.COM", "x.a.com", "X.A.com", "A.com", "a.com"];
-    for _ in 0..5 {
+    for _ in 0..4 {
         let mut q = json!({"path": *rng.pick(&fixed_paths)});
         if !on_path || !shared_host.is_null() || rng.chance(1, 3) {
             q["host"] = json!(*rng.pick(&fixed_hosts));
